@@ -18,6 +18,7 @@ func init() {
 			"(R3) SDK gas consumed by the handler is charged to the EVM contract gas on every success path and the SDK gas meter is limited by the contract's gas.",
 		Assumptions: []string{"the SDK message servers implement the native messages", "ABI decoding by go-ethereum's abi package"},
 		Declined:    []string{"equality of resulting stores/outputs with the native message", "equality of query results with the native gRPC queries"},
+		Thorough:    wholeProgramQueries,
 	})
 }
 
@@ -254,6 +255,26 @@ func runC16(r *Run) {
 		})
 	}
 	r.Floor("R4", "iterator callbacks in precompiles", nCb, 3)
+	// R6: SDK query servers that write
+	r.Rule("R6", "PATH.writing-queries-branched: the SDK's distribution query server advances the validator's reward period (IncrementValidatorPeriod → store writes) in ValidatorDistributionInfo, DelegationRewards and DelegationTotalRewards — harmless behind gRPC (throw-away context), a state change when called on the transaction's context. A precompile handler calls these only with the context returned by ctx.CacheContext() whose write function is never used. (Table derived by the whole-program rule W2 on the pinned SDK; W2 re-derives it in the thorough tier.)")
+	writingQueries := map[string]bool{"ValidatorDistributionInfo": true, "DelegationRewards": true, "DelegationTotalRewards": true}
+	nWQ := 0
+	for _, m := range wiredPrecompiles(r) {
+		for _, h := range m.Handlers {
+			if h.Fn == nil {
+				continue
+			}
+			for _, s := range externalSites(h.Fn, 3, map[*ssa.Function]bool{}) {
+				if s.Info.Recv != "Querier" || !writingQueries[s.Info.Name] || !pathHasSuffix(s.Info.PkgPath, "x/distribution/keeper") {
+					continue
+				}
+				nWQ++
+				r.Check(writesDiscardedCacheCtx(s.Call), "R6", fnID(h.Fn)+"#"+s.Info.Name, P.Pos(instrPos(s.Call)), "runs on a branched context that is discarded",
+					"the handler hands the transaction's own context to distribution Querier."+s.Info.Name+", which advances the validator's reward period: a method that IsTransaction does not list (callable under STATICCALL, priced as a query) writes to the distribution store, and the native query has no such effect")
+			}
+		}
+	}
+	r.Floor("R6", "calls of state-writing SDK queries in precompile handlers", nWQ, 3)
 	// R5: a handler that applies a Cosmos-side effect per element of a list applies it to every element
 	r.Rule("R5", "PATH.per-element-effect: in a precompile handler, a loop whose body performs a Cosmos-side effect performs it on every iteration — from the start of the body the loop header (next element) or a success exit is reachable only through the effect call; no filter `continue`/`break` decides which elements the native message would have processed anyway")
 	nLoopEff := 0
